@@ -187,6 +187,9 @@ func TestDrv_Attack(t *testing.T) {
 				tr := NewTracer(filepath.Join(dir, fmt.Sprintf("attack_%02d.ndjson", s)))
 				defer tr.Close()
 				for i := s; i < len(scripts); i += P {
+					if abnormalEnds.Load() > 40 {
+						break
+					}
 					runScript(t, tr, scripts[i])
 				}
 			})
